@@ -21,6 +21,10 @@ use vharness::{
 /// kept events, total count, number to keep, limit (a solve exceeding it is reported as not returning)
 static EVENTS: std::sync::Mutex<(Vec<fidget_core::verif::Event>, usize, usize, usize)> = std::sync::Mutex::new((Vec::new(), 0, 0, 0));
 
+/// number of solves given up so far; exploration stops after a few of them (what was recorded is still judged)
+static SLOW: std::sync::atomic::AtomicUsize = std::sync::atomic::AtomicUsize::new(0);
+const MAX_SLOW: usize = 4;
+
 fn nfree_of(s: &System) -> usize {
     s.fixed.iter().filter(|f| !**f).count()
 }
@@ -118,7 +122,8 @@ fn run<F: MathFunction + Clone>(w: &mut dyn Write, id: &mut usize, backend: &str
         params.insert(*v, if sys.fixed[j] { Parameter::Fixed(st) } else { Parameter::Free(st) });
     }
     let keep = sys.eqs.len() * sys.vars.len() + sys.vars.len();
-    let limit = std::env::var("C19_ITER").ok().and_then(|s| s.parse().ok()).unwrap_or(100_000usize) * sys.eqs.len().max(1) * sys.vars.len();
+    // a solve is given up (status "slow": SPEC-DRIFT, not a verdict) after 10^5 iterations, at most 3 x 10^6 hook events
+    let limit = (std::env::var("C19_ITER").ok().and_then(|s| s.parse().ok()).unwrap_or(100_000usize) * sys.eqs.len().max(1) * sys.vars.len()).min(3_000_000);
     *EVENTS.lock().unwrap() = (vec![], 0, keep, limit);
     let mut r = vharness::catch(std::panic::AssertUnwindSafe(|| solve(&fs, &params)));
     if let (Err(m), Ok(f)) = (&r, std::env::var("C19_RETRY").map(|s| s.parse::<usize>().unwrap())) {
@@ -142,6 +147,9 @@ fn run<F: MathFunction + Clone>(w: &mut dyn Write, id: &mut usize, backend: &str
     let nfree = gi_name.len() as i64;
     let jac: Vec<_> = evs.iter().filter(|e| e.name == "jacobian").take((neq * nfree) as usize)
         .map(|e| json!([hooks::field(e, "eq"), gi_name.get(&hooks::field(e, "gi")).cloned().unwrap_or("?".into()), hooks::field(e, "value")])).collect();
+    if matches!(&r, Err(m) if m.contains("did not return")) {
+        SLOW.fetch_add(1, std::sync::atomic::Ordering::Relaxed);
+    }
     let (status, result, msg): (&str, Vec<(String, f32)>, String) = match r {
         Ok(Ok(m)) => ("ok", m.iter().map(|(v, x)| (name_of.get(&var_hash(v)).cloned().unwrap_or("?".into()), *x)).collect(), String::new()),
         Ok(Err(e)) => ("err", vec![], format!("{e}")),
@@ -197,6 +205,9 @@ fn main() {
     let reps = if quick { 3 } else { 40 };
     for n in 1..=40usize {
         for rep in 0..reps {
+            if SLOW.load(std::sync::atomic::Ordering::Relaxed) >= MAX_SLOW {
+                break;
+            }
             let sys = gen_system(&mut rng, n, rep % 3 == 2);
             run::<VmFunction>(&mut w, &mut id, "vm", &sys);
             if rep % 2 == 0 {
@@ -208,6 +219,9 @@ fn main() {
     // unscaled ones, but every absolute threshold in the iteration is off by many orders of magnitude
     for n in 1..=12usize {
         for rep in 0..(if quick { 2 } else { 12 }) {
+            if SLOW.load(std::sync::atomic::Ordering::Relaxed) >= 2 * MAX_SLOW {
+                break;
+            }
             let mut sys = gen_system(&mut rng, n, rep % 4 == 3);
             (sys.cs, sys.xs) = if rep % 2 == 0 { (1048576.0, 1.0 / 67108864.0) } else { (1.0 / 1024.0, 4096.0) };
             if sys.cs < 1.0 {
